@@ -565,3 +565,36 @@ package types
 //@   assert@call(stringToUint256,2): $arg0 == tm.RewardPerPower   [C15]
 //@   assert@call(stringToUint256,3): $arg0 == tm.GasPrice   [C15,C16]
 
+
+// the other payload encoders (C03): every field of the payload that the handlers execute goes into the signed record
+//@ func (tx *TrxPayloadProposal) EncodeRLP(w)
+//@   requires tx != nil
+//@   modifies everything
+//@   assert@store(struct{Message;StartVotingHeight;VotingPeriodBlocks;ApplyingHeight;OptType;Options;}.Message,0): $value == tx.Message                                                          [C03,C15]
+//@   assert@store(struct{Message;StartVotingHeight;VotingPeriodBlocks;ApplyingHeight;OptType;Options;}.StartVotingHeight,0): $value == (tx.StartVotingHeight >= 0 ? tx.StartVotingHeight : tx.StartVotingHeight + 2^64)   [C03,C15]
+//@   assert@store(struct{Message;StartVotingHeight;VotingPeriodBlocks;ApplyingHeight;OptType;Options;}.VotingPeriodBlocks,0): $value == (tx.VotingPeriodBlocks >= 0 ? tx.VotingPeriodBlocks : tx.VotingPeriodBlocks + 2^64)   [C03,C15]
+//@   assert@store(struct{Message;StartVotingHeight;VotingPeriodBlocks;ApplyingHeight;OptType;Options;}.ApplyingHeight,0): $value == (tx.ApplyingHeight >= 0 ? tx.ApplyingHeight : tx.ApplyingHeight + 2^64)   [C03,C15]
+//@   assert@store(struct{Message;StartVotingHeight;VotingPeriodBlocks;ApplyingHeight;OptType;Options;}.OptType,0): $value == (tx.OptType >= 0 ? tx.OptType : tx.OptType + 2^32)                 [C03,C15]
+//@   assert@store(struct{Message;StartVotingHeight;VotingPeriodBlocks;ApplyingHeight;OptType;Options;}.Options,0): $value == tx.Options                                                          [C03,C15]
+//@   assert@call(Encode,0): $arg0 == w                                                                          [C03]
+//@   must@call(Encode,0): true                                                                                  [C03]
+
+//@ func (tx *TrxPayloadVoting) EncodeRLP(w)
+//@   requires tx != nil
+//@   modifies everything
+//@   assert@store(struct{TxHash;Choice;}.TxHash,0): $value == tx.TxHash                                                            [C03,C15]
+//@   assert@store(struct{TxHash;Choice;}.Choice,0): $value == (tx.Choice >= 0 ? tx.Choice : tx.Choice + 2^32)                     [C03,C15]
+//@   assert@call(Encode,0): $arg0 == w                                                                          [C03]
+//@   must@call(Encode,0): true                                                                                  [C03]
+
+//@ func (tx *TrxPayloadUnstaking) EncodeRLP(w)
+//@   requires tx != nil
+//@   modifies everything
+//@   assert@call(Encode,0): $arg0 == w   [C03,C12]
+//@   must@call(Encode,0): true                                                                                  [C03]
+
+//@ func (tx *TrxPayloadContract) EncodeRLP(w)
+//@   requires tx != nil
+//@   modifies everything
+//@   assert@call(Encode,0): $arg0 == w   [C03,C17]
+//@   must@call(Encode,0): true                                                                                  [C03]
